@@ -57,6 +57,11 @@ func c10Chain(maxPages, maxLen int) []*c10Page {
 		pages[i] = p
 	}
 	alsoFirst := verifrt.Choice("alsofirst", 2) == 1
+	// the root may announce a total - the number of items it inlines itself, so
+	// that it looks complete although pages follow; paging does not depend on it
+	if len(pages) > 1 && len(pages[0].items) > 0 && verifrt.Choice("total", 2) == 1 {
+		pages[0].obj["totalItems"] = float64(len(pages[0].items))
+	}
 	for i, p := range pages {
 		itemsKey, kind, nextKey := "items", "CollectionPage", "next"
 		if ordered {
